@@ -477,6 +477,8 @@ type schemaCheck struct {
 	R         string `json:"r"`
 	Valid     bool   `json:"valid"`
 	ValidSkip bool   `json:"validSkip"`
+	ValidAny  bool   `json:"validAny"` // accepted under SOME per-site choice of readings of the documented relaxation
+	ValidAll  bool   `json:"validAll"` // accepted under EVERY choice
 	NoZero    bool   `json:"noZero"`
 	Tolerated bool   `json:"tolerated"`
 	Equal     bool   `json:"equal"`
@@ -566,8 +568,8 @@ func modelsRun(run *ev.Run, which string) {
 			defs = append(defs, MKV{K: n, V: s})
 			dm[n] = s
 		}
-		// three fixed shapes every definition set carries (they are reached rarely by the random shapes): an object with ONE
-		// property-count bound, an element type with properties + additionalProperties, and a map of such elements
+		// four fixed shapes every definition set carries (they are reached rarely by the random shapes): an object with ONE
+		// property-count bound, an element type with properties + additionalProperties, a map of such elements, and arrays of scalars whose constraints exclude the zero value
 		counted := &MS{Ty: "object", Props: []MKV{{K: "a", V: &MS{Ty: "string"}}, {K: "b", V: &MS{Ty: "integer"}}, {K: "c", V: &MS{Ty: "boolean"}}}}
 		if si%2 == 0 {
 			counted.MaxProps = ip(2)
@@ -576,7 +578,12 @@ func modelsRun(run *ev.Run, which string) {
 		}
 		elem := &MS{Ty: "object", Props: []MKV{{K: "kind", V: &MS{Ty: "string"}}, {K: "size", V: &MS{Ty: "integer"}}}, Addl: &MS{Ty: "integer"}}
 		bag := &MS{Ty: "object", Addl: &MS{Ref: "Elem"}}
-		for _, kv := range []MKV{{K: "Counted", V: counted}, {K: "Elem", V: elem}, {K: "Bag", V: bag}} {
+		itemsDef := &MS{Ty: "object", Props: []MKV{
+			{K: "quantities", V: &MS{Ty: "array", Items: &MS{Ty: "integer", Minimum: i64p(1000)}}},
+			{K: "codes", V: &MS{Ty: "array", Items: &MS{Ty: "string", MinLen: ip(1)}}},
+			{K: "ratios", V: &MS{Ty: "array", Items: &MS{Ty: "number", Minimum: i64p(0), ExMin: true}}},
+			{K: "grid", V: &MS{Ty: "array", Items: &MS{Ty: "array", Items: &MS{Ty: "integer", Minimum: i64p(1000)}}}}}}
+		for _, kv := range []MKV{{K: "Counted", V: counted}, {K: "Elem", V: elem}, {K: "Bag", V: bag}, {K: "Items", V: itemsDef}} {
 			defs = append(defs, kv)
 			dm[kv.K] = kv.V
 			g.defs = append(g.defs, kv.K)
@@ -644,13 +651,15 @@ func modelsRun(run *ev.Run, which string) {
 					// JSON null as the value of an ADDITIONAL property: the generated map decodes it as the zero value (documented
 					// null reading); strict schema semantics reject it, the relaxed reading accepts it: either answer is admissible
 					st["documented-gap(null additional property)"]++
-				} else if sc.Valid == sc.ValidSkip {
-					if accepted != sc.Valid {
+				} else if sc.ValidAny == sc.ValidAll {
+					// the relaxation is applied per site by the generated code (it depends on whether a member is a pointer): the
+					// verdict is determined only when every per-site combination of readings gives the same answer
+					if accepted != sc.ValidAll {
 						k := "accepts-invalid"
-						if sc.Valid {
+						if sc.ValidAll {
 							k = "rejects-valid"
 						}
-						if sc.Valid && strings.Contains(resp.VErr, "extra1 in body is required") {
+						if sc.ValidAll && strings.Contains(resp.VErr, "extra1 in body is required") {
 							// map[string]<Model>: every value goes through validate.Required, which refuses the zero value - an
 							// empty object {} as a map value is reported missing
 							st["MISMATCH:zero-map-value-reported-missing"]++
@@ -658,7 +667,7 @@ func modelsRun(run *ev.Run, which string) {
 							run.Deviation("rejects-valid:zero-map-value-reported-missing", "the generated model rejects a valid instance: a map value that is an empty object is reported as a missing required member", replay)
 							continue
 						}
-						if sc.Valid && (strings.Contains(resp.VErr, "should have at most") || strings.Contains(resp.VErr, "should have at least")) && strings.Contains(resp.VErr, "properties") {
+						if sc.ValidAll && (strings.Contains(resp.VErr, "should have at most") || strings.Contains(resp.VErr, "should have at least")) && strings.Contains(resp.VErr, "properties") {
 							// minProperties / maxProperties are checked on the RE-MARSHALLED struct: absent array members without
 							// omitempty come back as null and are counted
 							st["MISMATCH:property-count-on-remarshalled-struct"]++
@@ -669,9 +678,9 @@ func modelsRun(run *ev.Run, which string) {
 						st["MISMATCH:"+k]++
 						replay["lean"] = sc
 						run.Deviation(k+":"+mutClass(what), fmt.Sprintf("the generated model %s an instance that is %s for the definition (decode error: %q, validation error: %q)",
-							map[bool]string{true: "accepts", false: "rejects"}[accepted], map[bool]string{true: "valid", false: "invalid"}[sc.Valid], resp.DecodeErr, resp.VErr), replay)
+							map[bool]string{true: "accepts", false: "rejects"}[accepted], map[bool]string{true: "valid (under every reading of the documented relaxation)", false: "invalid (under every reading)"}[sc.ValidAll], resp.DecodeErr, resp.VErr), replay)
 					} else {
-						st[fmt.Sprintf("agree:valid=%v", sc.Valid)]++
+						st[fmt.Sprintf("agree:valid=%v", sc.ValidAll)]++
 					}
 				} else {
 					st["documented-gap(either)"]++
